@@ -213,3 +213,14 @@ class C01(Prop):
         if obs["flat"] != exp:
             return "flat buffer %s != %s-order %s" % (obs["flat"][:12], order, exp[:12])
         return None
+
+    # ---- E3: coverage-guided fuzzing of the index functions (libFuzzer target with the oracle inside) ----
+    engines = ["hypothesis+sanitized-cpp-server", "libFuzzer (E3, harness/fuzz_index.cpp)"]
+
+    def extra_phases(self, ctx):
+        from .. import fuzz
+        return fuzz.fuzz_phase(self, "c01", ctx)
+
+    def replay_external(self, case):
+        from .. import fuzz
+        return fuzz.replay("c01", case) if case.get("fuzz") else []
